@@ -329,6 +329,11 @@ def run(ctx: Context) -> None:
             bad = []
             for n in ast.walk(fi.node):
                 if isinstance(n, ast.UnaryOp) and isinstance(n.op, NEGATIVE_OPS):
+                    # `~getmaskarray(<mesh table>)` (the entries of a table that are present) does not come from the hit set: polarity untouched
+                    op_ = n.operand
+                    if isinstance(op_, ast.Call) and (callee(ctx, fi, op_) or '') in ('numpy.ma.getmaskarray', 'numpy.ma.getmask') and len(op_.args) == 1 \
+                            and isinstance(ctx.flow(fi).resolve(op_.args[0]), ast.Attribute) and ctx.flow(fi).resolve(op_.args[0]).attr.endswith('_array'):
+                        continue
                     bad.append(n)
                 elif isinstance(n, ast.BinOp) and isinstance(n.op, (ast.BitXor,)):
                     bad.append(n)
@@ -369,6 +374,14 @@ def run(ctx: Context) -> None:
         fr_ = [c for c in calls_in(bf) if callee(ctx, bf, c) == 'numpy.fromiter']
         ok2 = gen is not None and len(gens) == 1 and len(fr_) == 1 and bflow2.resolve(fr_[0].args[0]) is gen \
             and bool(bf.returns()) and all(bflow2.reaches(r.value, lambda n: n is fr_[0]) for r in bf.returns())
+        if not (ok and ok2):
+            # the same ring computed on whole arrays: faces whose row holds (unmasked) one of the nodes of the hit faces, or that are hit faces themselves
+            bv = Matcher(ctx, bf)
+            ok_v = bv.ordered(f"$fn = {tpp}.face_node_array", f"$nodes = numpy.unique($fn[{fip}].compressed())",
+                              "$has = numpy.isin(numpy.ma.getdata($fn), $nodes)", "$shares = numpy.any($has & ~numpy.ma.getmaskarray($fn), axis=1)",
+                              f"$orig = numpy.isin(numpy.arange(len($fn)), {fip})")
+            pick = (bv.stmt('$out = numpy.flatnonzero($orig | $shares)') or bv.stmt('$out = numpy.flatnonzero($shares | $orig)')) if ok_v else None
+            ok = ok2 = bool(ok_v) and pick is not None and bool(bf.returns()) and all(bflow2.reaches(r.value, lambda n: n is pick.value) for r in bf.returns())
         ctx.check('R07.6', ok and ok2, "one ring: the original faces plus every face sharing a node with them, in ascending face order", bf, gens[0] if gens else bf.node)
         mf = ctx.func(f"{UGRID}.mask_from_face_indexes")
         mflow = ctx.flow(mf)
